@@ -225,7 +225,7 @@ func (ru *srun) finish() {
 	}()
 	select {
 	case <-done:
-	case <-time.After(30 * time.Second):
+	case <-time.After(120 * time.Second):
 		_, _, dump := snapshot()
 		os.WriteFile("/tmp/c07_sched_leak.txt", []byte(dump), 0o644)
 		if ru.fatal == "" {
